@@ -60,3 +60,8 @@ Theorem C12_ack_completes_released_reach : forall bufsize cl which atype pid raw
   o = snd (Client.Model.complete_all (Client.Model.upd_q cl which (fst (Ackq.Spec.s_acked q1))) d).
 Proof. exact Client.ProofsComplete.ack_completes_released_reach. Qed.
 Print Assumptions C12_ack_completes_released_reach.
+
+(* finding F22: a request numbered by the library gets the identifier the application chose for one still in flight *)
+Theorem C12_instance_c12_auto_id_collision : run_client [262144] h_c12_auto_id_collision = o_c12_auto_id_collision.
+Proof. exact ProofsInstances.inst_c12_auto_id_collision. Qed.
+Print Assumptions C12_instance_c12_auto_id_collision.
